@@ -523,10 +523,14 @@ func (p *Plain) Case(c any, run func(x *Ctx)) bool {
 		if dir == "" {
 			dir = filepath.Join(verifDir(), "replay")
 		}
-		os.MkdirAll(dir, 0o755)
 		b, _ := json.MarshalIndent(rf, "", " ")
 		path := filepath.Join(dir, fmt.Sprintf("%s-%s-%016x.json", p.Prop, p.Leg, hash64(string(cb))))
-		os.WriteFile(path, b, 0o644)
+		if rp := os.Getenv("VERIF_REPLAY"); rp != "" {
+			path = rp // replaying a saved case: that file is the reproduction, nothing new is written
+		} else {
+			os.MkdirAll(dir, 0o755)
+			os.WriteFile(path, b, 0o644)
+		}
 		recMu.Lock()
 		r.Violation = &savedViolation{Violation: *x.viol, Replay: path}
 		recMu.Unlock()
